@@ -7,13 +7,15 @@ from bounded import edits as E
 
 def run(tier, seed):
     r = E.run_edits("C04", tier, seed)
-    refs = b_c11.run_single(tier, seed)
+    # an edit through a reference that lands in the wrong binding changes something outside the addressed one: the constructed
+    # reference documents and the live-vs-fresh histories of C11 belong to C04 as well
+    refs = b_c11.run(tier, seed)
     for v in refs["violations"]:
         v["what"] = v["what"].replace("C11", "C04", 1)
     return E.merge(r, refs)
 
 
 def replay(v):
-    if "case" in v["inputs"]:
+    if "case" in v["inputs"] or "ops" in v["inputs"]:
         return b_c11.replay(v)
     return E.replay_edit("C04", v)
